@@ -9,7 +9,9 @@ Further loop-free pieces of src/concat/mod.rs (struct-by-value mode: `BroCatli`,
 structures; `toState` / `toNsd` read the generated `[u8; 2]` / `[u8; 5]` lists as the model's pair / five-field
 record): `NewStreamData::new`, `NewStreamData::sufficient`, `BroCatli::new_brotli_file` (every state) and
 `BroCatli::new_with_window_size` (every `u8` argument: the generated state is the model's whenever the model
-returns, and the generated debug-build no-panic condition holds exactly when the model does not panic).
+returns, and the generated debug-build no-panic condition holds exactly when the model does not panic);
+`BroCatli::append_eof_metablock_to_last_bytes` (every state with a two-byte `last_bytes`: whenever the model
+returns, the generated state is the model's and the generated no-panic condition holds).
 -/
 import BV.Gen.FnC16
 import BV.Model.Concat
@@ -106,10 +108,129 @@ theorem new_with_window_size_panics (w : Nat) (hw : w < 256) (site : Site) (h : 
   simp only [h] at this
   simpa using this
 
+/-- `BroCatli::append_eof_metablock_to_last_bytes`: on every state whose `last_bytes` array holds two bytes, whenever
+the model returns (it panics on an unsanitised last byte and on every `u8` overflow), the generated state is the
+model's -/
+theorem append_eof_generated (g : BroCatli) (x y : Nat) (hl : g.last_bytes = [x, y]) (hy : y < 256) (s' : State)
+    (h : appendEofMetablockToLastBytes (toState g) = .ok s') :
+    toState (append_eof_metablock_to_last_bytes g) = s' := by
+  unfold appendEofMetablockToLastBytes at h
+  simp only [toState, hl, List.getD_cons_zero, List.getD_cons_succ] at h
+  split at h
+  · cases h
+  split at h
+  · cases h
+  split at h
+  · cases h
+  split at h
+  · cases h
+  split at h
+  · cases h
+  split at h
+  · cases h
+  rename_i c1 c2 c3 c4 c5 c6
+  have hlen : (g.last_bytes_len + 256 - 1) % 256 = g.last_bytes_len - 1 := by omega
+  have hmul : ((g.last_bytes_len - 1) * 8) % 256 = (g.last_bytes_len - 1) * 8 := by omega
+  have hadd : ((g.last_bytes_len - 1) * 8 + g.last_byte_bit_offset) % 256 = (g.last_bytes_len - 1) * 8 + g.last_byte_bit_offset := by omega
+  have h16 : ((g.last_bytes_len - 1) * 8 + g.last_byte_bit_offset) % 16 = (g.last_bytes_len - 1) * 8 + g.last_byte_bit_offset := by omega
+  have hoff : (g.last_byte_bit_offset + 2) % 256 = g.last_byte_bit_offset + 2 := by omega
+  unfold append_eof_metablock_to_last_bytes
+  simp only [hl, List.getD_cons_zero, List.getD_cons_succ, hlen, hmul, hadd, h16, hoff, List.set_cons_zero, List.set_cons_succ]
+  have e8 : y <<< (8 % 16) % 65536 = y <<< 8 := by
+    show y <<< 8 % 65536 = y <<< 8
+    rw [Nat.shiftLeft_eq]; omega
+  have e816 : (8 % 16) = 8 := rfl
+  have p16 : (2 : Nat) ^ 16 = 65536 := by decide
+  rw [p16] at h
+  rw [e8, e816]
+  by_cases b1 : g.last_byte_bit_offset + 2 ≥ 8
+  · have d1 : decide (g.last_byte_bit_offset + 2 ≥ 8) = true := by simpa using b1
+    have hsub : (g.last_byte_bit_offset + 2 + 256 - 8) % 256 = g.last_byte_bit_offset + 2 - 8 := by omega
+    rw [if_pos b1] at h
+    simp only [d1, if_true, hsub]
+    by_cases b2 : g.last_byte_bit_offset + 2 - 8 ≠ 0
+    · have d2 : (g.last_byte_bit_offset + 2 - 8 != 0) = true := by simpa using b2
+      rw [if_pos b2] at h
+      simp only [d2, if_true]
+      by_cases b3 : g.last_bytes_len + 1 ≥ 256
+      · rw [if_pos b3] at h; cases h
+      · rw [if_neg b3] at h
+        have hl1 : (g.last_bytes_len + 1) % 256 = g.last_bytes_len + 1 := by omega
+        rw [hl1]
+        have h2 := Outcome.ok.inj h
+        subst h2; first | rfl | simp [toState]
+    · have d2 : (g.last_byte_bit_offset + 2 - 8 != 0) = false := by simpa using b2
+      rw [if_neg b2] at h
+      simp only [d2, if_false, Bool.false_eq_true]
+      have h2 := Outcome.ok.inj h
+      subst h2; first | rfl | simp [toState]
+  · have d1 : decide (g.last_byte_bit_offset + 2 ≥ 8) = false := by simpa using b1
+    rw [if_neg b1] at h
+    simp only [d1, if_false, Bool.false_eq_true]
+    have h2 := Outcome.ok.inj h
+    subst h2; first | rfl | simp [toState]
+
+/-- … and the generated debug-build no-panic condition holds -/
+theorem append_eof_ok_generated (g : BroCatli) (x y : Nat) (hl : g.last_bytes = [x, y]) (s' : State)
+    (h : appendEofMetablockToLastBytes (toState g) = .ok s') :
+    append_eof_metablock_to_last_bytes_ok g = true := by
+  unfold appendEofMetablockToLastBytes at h
+  simp only [toState, hl, List.getD_cons_zero, List.getD_cons_succ] at h
+  split at h
+  · cases h
+  split at h
+  · cases h
+  split at h
+  · cases h
+  split at h
+  · cases h
+  split at h
+  · cases h
+  split at h
+  · cases h
+  rename_i c1 c2 c3 c4 c5 c6
+  have hs : g.last_byte_sanitized = true := by simpa using c1
+  have hlen : (g.last_bytes_len + 256 - 1) % 256 = g.last_bytes_len - 1 := by omega
+  have hmul : ((g.last_bytes_len - 1) * 8) % 256 = (g.last_bytes_len - 1) * 8 := by omega
+  have hadd : ((g.last_bytes_len - 1) * 8 + g.last_byte_bit_offset) % 256 = (g.last_bytes_len - 1) * 8 + g.last_byte_bit_offset := by omega
+  have hoff : (g.last_byte_bit_offset + 2) % 256 = g.last_byte_bit_offset + 2 := by omega
+  unfold append_eof_metablock_to_last_bytes_ok
+  dsimp only
+  simp only [hl, hs, List.length_cons, List.length_nil, List.length_set, hoff]
+  have t1 : decide (0 < 0 + 1 + 1) = true := by decide
+  have t2 : decide (1 < 0 + 1 + 1) = true := by decide
+  have t3 : decide (8 < 16) = true := by decide
+  have t4 : decide (1 ≤ g.last_bytes_len) = true := by simp; omega
+  have t5 : decide ((g.last_bytes_len + 256 - 1) % 256 * 8 < 256) = true := by simp only [decide_eq_true_eq]; omega
+  have t6 : decide ((g.last_bytes_len + 256 - 1) % 256 * 8 % 256 + g.last_byte_bit_offset < 256) = true := by
+    simp only [decide_eq_true_eq]; omega
+  have t7 : decide (((g.last_bytes_len + 256 - 1) % 256 * 8 % 256 + g.last_byte_bit_offset) % 256 < 16) = true := by
+    simp only [decide_eq_true_eq]; omega
+  have t8 : decide (g.last_byte_bit_offset + 2 < 256) = true := by simp only [decide_eq_true_eq]; omega
+  simp only [t1, t2, t3, t4, t5, t6, t7, t8, Bool.and_self, Bool.true_and]
+  by_cases b1 : g.last_byte_bit_offset + 2 ≥ 8
+  · have d1 : decide (g.last_byte_bit_offset + 2 ≥ 8) = true := by simpa using b1
+    have d1' : decide (8 ≤ g.last_byte_bit_offset + 2) = true := by simpa using b1
+    have hsub : (g.last_byte_bit_offset + 2 + 256 - 8) % 256 = g.last_byte_bit_offset + 2 - 8 := by omega
+    rw [if_pos b1] at h
+    simp only [d1, if_true, hsub]
+    by_cases b2 : g.last_byte_bit_offset + 2 - 8 ≠ 0
+    · have d2 : (g.last_byte_bit_offset + 2 - 8 != 0) = true := by simpa using b2
+      rw [if_pos b2] at h
+      simp only [d2, if_true]
+      by_cases b3 : g.last_bytes_len + 1 ≥ 256
+      · rw [if_pos b3] at h; cases h
+      · simp only [Bool.true_and, decide_eq_true_eq]; omega
+    · have d2 : (g.last_byte_bit_offset + 2 - 8 != 0) = false := by simpa using b2
+      simp only [d2, if_false, Bool.false_eq_true]
+  · have d1 : decide (g.last_byte_bit_offset + 2 ≥ 8) = false := by simpa using b1
+    simp only [d1, if_false, Bool.false_eq_true]
+
 example : parse_window_size [0x5b, 0] = some (22, 4) := by decide
 example : parse_window_size [0x11, 0x1e] = some (30, 14) := by decide
 example : parse_window_size [0x11, 0x09] = none := by decide
 example : (toState (new_with_window_size 22)).last_bytes = (0x3b, 0) := by decide
 example : new_with_window_size_ok 9 = false := by decide
+example : (appendEofMetablockToLastBytes (toState { (new_with_window_size 22) with last_byte_sanitized := true, last_byte_bit_offset := 4 })).isPanic = false := by decide
 
 end BV.Props.C16Gen
